@@ -26,7 +26,12 @@ def run(ctx):
     lines = pipeline.lines_of(tr)
     for idx, mon in vs:
         rec = json.loads(lines[idx - 1])
-        ctx.mismatch("determinism:%s:%s" % (mon, rec.get("diff", "")), {"monitor": mon, "item": rec})
+        fp = "determinism:%s:%s" % (mon, rec.get("diff", ""))
+        # two modules of the report share a file name and what differs is one of the per-module symbol flags, which the report looks up by
+        # that name: a class of its own (see known-findings.json), so that any other non-determinism keeps its own fingerprint
+        if rec.get("same_leaf") == 1 and rec.get("diff", "") in (".modules[].corrupt_symbols", ".modules[].loaded_symbols", ".modules[].missing_symbols", ".modules[].symbol_url"):
+            fp += ":modules-sharing-a-file-name"
+        ctx.mismatch(fp, {"monitor": mon, "item": rec})
     if len(lines) < 20:
         raise core.ToolFailure("vacuous: only %d processable items" % len(lines))
     cov = {
